@@ -130,6 +130,42 @@ def dir_cycle_tail(src, base, img):
     return ["directories %d and %d made each other's parent, directory %d (lower inode number) hangs below %d; all unlinked from the root (link counts consistent)" % (za, zb, zc, za)]
 
 
+def bigalloc_quota_lostfound(src, img):
+    """bigalloc + quota, a directory with 2000 fifos whose inode is cleared: the repair has to grow /lost+found by whole
+    clusters and charge them to the quota in cluster units"""
+    env = e2v.tool_env(src)
+    T = lambda p: os.path.join(src, p)
+    base = os.path.join(WORK, "base_bigalloc_quota.img")
+    with e2v.Lock(base + ".lock"):
+        if not os.path.exists(base):
+            tmp = base + ".tmp"
+            e2v.sh([T("misc/mke2fs"), "-q", "-F", "-t", "ext4", "-b", "1024", "-O", "bigalloc,quota,^resize_inode", "-C", "4096", "-N", "4096", tmp, "32M"], env=env, timeout=120)
+            cmds = ["mkdir d", "mkdir keep"] + ["mknod d/p%04d p" % i for i in range(2000)] + ["mknod keep/q%03d p" % i for i in range(40)]
+            e2v.sh([T("debugfs/debugfs"), "-w", "-f", "-", tmp], input=("\n".join(cmds) + "\n").encode(), env=env, timeout=600)
+            e2v.sh([T("e2fsck/e2fsck"), "-fy", tmp], env=env, timeout=300)
+            os.rename(tmp, base)
+    shutil.copy(base, img)
+    e2v.sh([T("debugfs/debugfs"), "-w", "-R", "clri d", img], env=env, timeout=60)
+    return ["bigalloc+quota: the inode of a directory holding 2000 fifos cleared (clri d)"]
+
+
+def hash_flag_case(src, img, alg):
+    """an indexed directory whose names contain bytes >= 0x80, built under the signed-char hash; then the superblock says
+    unsigned (checksum valid): most names now lie outside the hash range of their leaf"""
+    env = e2v.tool_env(src)
+    T = lambda p: os.path.join(src, p)
+    e2v.sh([T("misc/mke2fs"), "-q", "-F", "-t", "ext4", "-b", "1024", "-N", "1024", "-E", "hash_seed=01234567-89ab-cdef-0123-456789abcdef", img, "8M"], env=env, timeout=120)
+    r = e2v.rng(7, "c02hash", alg)
+    names = set()
+    while len(names) < 400:
+        names.add(bytes(r.choice(b"ab\xc3\xa9\xe2\x82\xac\xf0\x9f\x98\x80xyz0123") for _ in range(r.randint(6, 30))))
+    cmds = b"ssv def_hash_version " + alg.encode() + b"\nssv flags 1\nmkdir u\n" + b"".join(b"mknod u/" + n + b" p\n" for n in sorted(names))
+    e2v.sh([T("debugfs/debugfs"), "-w", "-f", "-", img], input=cmds, env=env, timeout=300)
+    e2v.sh([T("e2fsck/e2fsck"), "-fyD", img], env=env, timeout=300)
+    e2v.sh([T("debugfs/debugfs"), "-w", "-R", "ssv flags 2", img], env=env, timeout=60)
+    return ["directory of 400 names with bytes >= 0x80 indexed under the signed %s hash, then s_flags := unsigned_directory_hash (checksum valid)" % alg]
+
+
 def one_case(src, idx, seed, tier, keep=False):
     r = e2v.rng(seed, "c02", idx)
     name, opts, size = corrupt.IMG_CONFIGS[idx % len(corrupt.IMG_CONFIGS)] if tier == "quick" else r.choice(corrupt.IMG_CONFIGS)
@@ -159,6 +195,13 @@ def one_case(src, idx, seed, tier, keep=False):
         name, opts, size = [c for c in corrupt.IMG_CONFIGS if c[0] == "ext4_1k"][0]
         base = corrupt.build_image(src, WORK, name, opts, size, 1)
         desc = corrupt.corrupt(base, img, r, directed=[(corrupt.op_orphan_file, corrupt.ORPHAN_VARIANTS[idx - (nd + 4 + 2 * len(corrupt.PAIRS) + 4)])])
+    elif idx == nd + 4 + 2 * len(corrupt.PAIRS) + 4 + len(corrupt.ORPHAN_VARIANTS):
+        name, opts, size = "ext4_bigalloc_quota", ["-t", "ext4", "-b", "1024", "-O", "bigalloc,quota,^resize_inode", "-C", "4096", "-N", "4096"], "32M"
+        desc = bigalloc_quota_lostfound(src, img)
+    elif idx <= nd + 4 + 2 * len(corrupt.PAIRS) + 4 + len(corrupt.ORPHAN_VARIANTS) + 3:
+        alg = ["tea", "half_md4", "legacy"][idx - (nd + 4 + 2 * len(corrupt.PAIRS) + 4 + len(corrupt.ORPHAN_VARIANTS) + 1)]
+        name, opts, size = "ext4_hash_" + alg, ["-t", "ext4", "-b", "1024", "-N", "1024"], "8M"
+        desc = hash_flag_case(src, img, alg)
     else:
         desc = corrupt.corrupt(base, img, r)
     recipe = {"base": name, "mke2fs": opts, "size": size, "build_seed": 1 + (idx // 200) % 3, "case_index": idx, "operators": desc}
@@ -173,6 +216,13 @@ def one_case(src, idx, seed, tier, keep=False):
         owners0 = {i_: f0.inode(i_)["file_acl"] for i_ in f0.in_use_inodes() if (i_ == 2 or i_ >= f0.first_ino) and f0.inode(i_)["file_acl"]}
     except Exception:
         owners0 = None
+    if not owners0:
+        # the damaged image's own bitmaps may be unreadable (a descriptor location changed): the owners as they were before the damage
+        try:
+            fb = Fs(base)
+            owners0 = {i_: fb.inode(i_)["file_acl"] for i_ in fb.in_use_inodes() if (i_ == 2 or i_ >= fb.first_ino) and fb.inode(i_)["file_acl"]}
+        except Exception:
+            owners0 = None
     rc_y, probs_y, out_y = fsck(src, img, ["-fy"], "y")
     rc_n2, probs_n2, out_n2 = fsck(src, img, ["-fn"], "n2")
     ea_cleared = False
